@@ -50,6 +50,7 @@ def run(ctx):
     ctx.do(rule_no_constraint_beyond_the_table)
     from .regexlang import rule_regex_languages
     ctx.do(rule_regex_languages, "C03.regex-language", ["complete"])
+    ctx.do(rule_hash_values_accepted)
     run.floor("C03.regex-language", 5)
     from .C08 import rule_descends, rule_positional_index, rule_syntax_agreement, rule_truthiness
     ctx.do(rule_truthiness, rule_id="C03.selector-acceptance")
@@ -598,3 +599,48 @@ def rule_no_constraint_beyond_the_table(ctx):
                       expected="one of %s" % [of for of in oracle.get(k, []) if "=> raise" in of], found=cf)
     if n < 20:
         raise AnalysisError("fewer than 20 raising co-constraints summarised (%d)" % n)
+
+
+def rule_hash_values_accepted(ctx, R="C03.regex-language"):
+    """The sanity expression of a hash algorithm accepts EVERY plausible value of it: all strings over the algorithm's alphabet
+    (spec/hashes.json: hexadecimal, or the ssdeep text alphabet) of the digest's length(s), in either letter case.  Decided as
+    language inclusion over automata, L(reference) <= L(code), per table entry -- a "tightened" expression (a minimum length
+    for a part that may be empty, a narrower alphabet) refuses valid content only for particular values."""
+    import re as _re
+    from .. import regexast, regexnfa
+    from ..tableeval import EnumMember, Evaluator
+    run = ctx.run
+    prog = ctx.prog
+    spec = ctx.spec("hashes.json")
+    hm = prog.module("stix2.hashes")
+    b = hm.scope.lookup_local("_HASH_REGEXES")
+    if b is None or not isinstance(b.value, ast.Dict):
+        raise AnalysisError("anchor missing: stix2.hashes._HASH_REGEXES dict literal")
+    ev = Evaluator(prog, allow_dyn=True)
+    flags = 0
+    for n_ in ast.walk(hm.tree):
+        if isinstance(n_, ast.Call) and norm(n_.func) == "re.compile" and len(n_.args) > 1:
+            flags = regexast.flag_value(norm(n_.args[1]))
+    n = 0
+    for k, v in zip(b.value.keys, b.value.values):
+        kk = ev.eval(k, hm.scope)
+        vv = ev.eval(v, hm.scope)
+        if not isinstance(kk, EnumMember) or not isinstance(vv, str):
+            raise AnalysisError("_HASH_REGEXES entry not (Hash member: str): %s" % norm(k))
+        name = kk.name
+        if name not in spec["lengths"]:
+            raise AnalysisError("hash %s not in spec/hashes.json" % name)
+        alpha = spec["alphabets"][spec["alphabet_of"].get(name, "hex")]
+        chars = "".join(sorted(set(alpha.lower()) | set(alpha.upper())))
+        cls_ = "[" + "".join(_re.escape(c_) if c_ in "\\]^-[" else c_ for c_ in chars) + "]"
+        want = spec["lengths"][name]
+        ref = "%s{%d,%d}" % (cls_, want["min"], want["max"]) if isinstance(want, dict) else "|".join("%s{%d}" % (cls_, ln) for ln in want)
+        w = regexnfa.included(regexnfa.nfa_of(ref, 0, "fullmatch"), regexnfa.nfa_of(vv, flags, "match"))
+        n += 1
+        run.check(w is None, R, key(hm.relpath, "_HASH_REGEXES", "accepts-every-%s-value" % name),
+                  "the sanity expression of %s refuses a plausible value of that algorithm (the reference language -- the "
+                  "algorithm's alphabet at the digest's length(s), either case -- is not included in it): a valid hashes "
+                  "entry is rejected" % name, file=hm.relpath, line=k.lineno, function="_HASH_REGEXES",
+                  expected="L(%s) subset of L(code)" % (ref if len(ref) < 90 else ref[:87] + "..."), found="pattern %r refuses %r" % (vv, w))
+    if n < 10:
+        raise AnalysisError("fewer than 10 hash expressions examined (%d)" % n)
